@@ -197,6 +197,15 @@ def jsonUnquote : List Char → Option (List Char)
     else if c.toNat < 0x20 then none                           -- raw control character
     else (jsonUnquote rest).map (c :: ·)
 
+/-- `json.Unmarshal(data, &s)` for `data` that begin with `"` (the only data the library ever
+    passes, see `genSingleJsonInput_eq` / `genDoubleJsonInput_eq` in Lemmas/EscapeGo.lean): the
+    literal must also end with `"` (`unquoteBytes`: `s[0] != '"' || s[len(s)-1] != '"'`), and the
+    text in between is decoded by `jsonUnquote`.  Data beginning with anything else (white space,
+    `null`, …) never occur and are not modelled (`none`). -/
+def jsonUnmarshalQuoted : List Char → Option (List Char)
+  | c :: r => if c = '"' ∧ r.getLast? = some '"' then jsonUnquote r.dropLast else none
+  | [] => none
+
 def unescapeSingle (l : List Char) : Option (List Char) := jsonUnquote (singleToJson l)
 def unescapeDouble (l : List Char) : Option (List Char) := jsonUnquote l
 
